@@ -316,8 +316,9 @@ def interval_index_range_bounds(iv, axis):
     a, b = float(iv[0]), float(iv[1])
     lo, hi = min(a, b), max(a, b)
     must = {i for i, x in enumerate(axis) if lo <= x <= hi}
-    lo_i = 0 if math.isinf(lo) and lo < 0 else (len(axis) if math.isinf(lo) else nearest_index(axis, lo))
-    hi_i = len(axis) - 1 if math.isinf(hi) and hi > 0 else (-1 if math.isinf(hi) else nearest_index(axis, hi))
+    # the axis point nearest to an infinite bound is the end of the axis it points to
+    lo_i = (0 if lo < 0 else len(axis) - 1) if math.isinf(lo) else nearest_index(axis, lo)
+    hi_i = (len(axis) - 1 if hi > 0 else 0) if math.isinf(hi) else nearest_index(axis, hi)
     may = set(range(lo_i, hi_i + 1)) | must
     return must, may
 
@@ -329,11 +330,11 @@ def slice_reference(iv, axis):
     a, b = float(iv[0]), float(iv[1])
     lo, hi = min(a, b), max(a, b)
     if math.isinf(lo):
-        i0 = 0 if lo < 0 else len(axis)
+        i0 = 0 if lo < 0 else len(axis) - 1
     else:
         i0 = nearest_index(axis, lo)
     if math.isinf(hi):
-        i1 = len(axis) - 1 if hi > 0 else -1
+        i1 = len(axis) - 1 if hi > 0 else 0
     else:
         i1 = nearest_index(axis, hi)
     return list(range(i0, i1 + 1))
